@@ -478,6 +478,16 @@ class Body:
                 else:
                     t = ("deref", t)
             elif k == "field":
+                # field of a struct local that is built once by an aggregate and later only has OTHER fields re-assigned
+                if t[0] == "var":
+                    ds = self.defs().get(t[1], [])
+                    full = [d for d in ds if d[0] in ("assign", "call")]
+                    part = [d for d in ds if d[0] == "partial"]
+                    if len(full) == 1 and full[0][0] == "assign" and full[0][3]["k"] == "agg" and full[0][3].get("agg") == "adt" \
+                            and not any(d[3]["p"] and d[3]["p"][0][0] == "field" and d[3]["p"][0][2] == p[2] for d in part) \
+                            and not isinstance(p[2], int) and p[2] in full[0][3].get("fields", []):
+                        t = self.term_operand(full[0][3]["ops"][full[0][3]["fields"].index(p[2])])
+                        continue
                 # field of an aggregate whose construction we know
                 if t[0] == "agg" and t[1] in ("tuple", "closure") and p[1] < len(t[3]):
                     t = t[3][p[1]]
